@@ -80,6 +80,9 @@ class Sched:
         self.listeners: list[Callable[[tuple], None]] = []
         self.interrupt_at: int | None = None    # k-th yield of the control thread raises KeyboardInterrupt
         self._ctl_yields = 0
+        # start-up interrupt: the control thread's yield at the spawn of this logical thread
+        # ("inference" | "training" | "webapi") raises KeyboardInterrupt instead of spawning it
+        self.boot_interrupt: str | None = None
         self.eps = 1e-9
 
     @property
@@ -216,6 +219,11 @@ class Sched:
         th = self.me()
         if self.aborted:
             raise SchedAbort(self.aborted)
+        if th.name == "control" and self.boot_interrupt is not None and pending.kind == "spawn" \
+                and pending.obj == self.boot_interrupt:
+            self.boot_interrupt = None
+            self.log("interrupt", "boot:" + pending.obj)
+            raise KeyboardInterrupt()
         if th.name == "control" and any(t.name == "training" for t in self.threads):
             # interrupts are delivered once both background threads have been started
             self._ctl_yields += 1
@@ -409,7 +417,14 @@ class FakeThread:
         s.log("join" if alt == "go" else "join_timeout", self.lname)
 
     def is_alive(self) -> bool:
-        return self.lt is not None and not self.lt.done
+        s = self.sched
+        logical = _real_threading.get_ident() in s.by_ident and not s.aborted
+        if logical:
+            s.point("read", f"alive[{self.lname}]")
+        v = self.lt is not None and not self.lt.done
+        if logical:
+            s.log("read", f"alive[{self.lname}]", v)
+        return v
 
 
 class FakeFuture:
